@@ -119,16 +119,22 @@ class Code15(Code13):
                 continue
             prev_offset = offset
             prev_line_number = line_number
-            while offset_diff >= 256:
+            # Same scheme as compile.c: first spend the bytecode
+            # increment, then the line increment; the first entry that
+            # has a line increment also carries what is left of the
+            # bytecode increment, continuation entries have none.
+            while offset_diff > 255:
                 co_lnotab += chr(255)
                 co_lnotab += chr(0)
                 offset_diff -= 255
-            while line_diff >= 256:
-                co_lnotab += chr(0)
+            while line_diff > 255:
+                co_lnotab += chr(offset_diff)
                 co_lnotab += chr(255)
+                offset_diff = 0
                 line_diff -= 255
-            co_lnotab += chr(offset_diff)
-            co_lnotab += chr(line_diff)
+            if offset_diff or line_diff:
+                co_lnotab += chr(offset_diff)
+                co_lnotab += chr(line_diff)
 
         self.co_lnotab = co_lnotab
 
